@@ -17,6 +17,12 @@ CLAIMED = {
             "table width (R3); carry/signed-carry/signed-borrow conditions equal the P-Code truth tables (R4); each arm is the apint primitive of its mnemonic with P-Code operand "
             "order (R5); operator traits delegate correctly (R6). A violated clause is a wrong folded value for some operand pair; the numeric behaviour of apint itself is trusted.",
             "3/C01", "apint::Int::is_positive == !is_negative (sign bit unset), read from apint 0.2 source"),
+    "C07": ("field-visibility facts + writer enumeration (who-may-write); change=>enqueue pairing on path conditions; lost-node analysis of the dequeue loops on normalised terms; merge-test provenance (old vs new value); deliberately no ordering rule",
+            "Decides the worklist invariant of fixpoint::Computation from which least-solution-for-any-order follows for monotone clients: state fields are private and written only by known methods (R1); "
+            "every write of a node value enqueues that node's priority on the same path (R2); every dequeued node is processed or remembered, every outgoing edge updated, every Some result merged into the end node, "
+            "and a merged value stored exactly when it differs from the OLD value (R3); steps<max guards processing with the increment, has_stabilized <=> empty worklist (R4); priority lists contain every node (R5). "
+            "Edits that only change the processing order stay silent (seeded negative control). Monotonicity/finite height of clients is not decided.",
+            "3/C07", ""),
     "C10": ("slot coverage derived from the Def/Jmp type definitions; gen/kill analysis of retain predicates (closure parameters, upvars) with sibling cross-check of the two transfer functions; match-table and path-condition polarity checks",
             "Decides the dataflow side conditions of the optimising passes: liveness makes every Expression slot of Def/Jmp alive and kills before it gens (R1); only Assign is deleted, only when "
             "not alive, iterating backwards (R2); both expression-propagation transfer functions kill, for Assign and Load, the entry keyed by the defined variable and all entries mentioning it, "
